@@ -78,6 +78,8 @@ def plan(seed, subbatch):
     extras = []
     if op_rng.random() < 0.35:
         extras.append((op_rng.random(), {"op": "restart"}))
+    if op_rng.random() < 0.3:
+        extras.append((op_rng.random(), {"op": op_rng.choice(("recalculate_all", "purge_all"))}))
     start = world.pick_start(cfg, base_s, widest)
     k = cfg.choice((0, 0, 1, 2, n // 2, n))
     if hexcfg.get("lifespan_s"):
@@ -218,6 +220,20 @@ def execute(trace, ctx=None):
                 except LibError as e:
                     raise Violation("append-raises", "hexital", e.site, {"error": repr(e.exc)})
                 continue
+            elif kind in ("recalculate_all", "purge_all"):
+                # a maintenance call on everything; the standalone twins get the same call
+                try:
+                    for t in twins:
+                        (t.recalculate if kind == "recalculate_all" else t.purge)()
+                        t.calculate()
+                except Exception as exc:  # noqa: BLE001
+                    raise Discard("solo-twin-raised:" + type(exc).__name__)
+                try:
+                    run.call(filled_size(delivered, tfs) * 8, hx.recalculate if kind == "recalculate_all" else hx.purge)
+                    run.call(filled_size(delivered, tfs) * 8, hx.calculate)
+                except LibError as e:
+                    raise Violation("maintenance-raises", "hexital", e.site, {"error": repr(e.exc)})
+                run.stats["maintenance_all"] += 1
             elif kind == "restart":
                 # process restart: only the settings dicts and the raw candles survive
                 try:
